@@ -37,7 +37,7 @@ def run(tier, seed):
     res.rule = ("every input length 0..40 and 63,64,65,127,128,129 (thorough: also 0..300 and 1000), boundary-valued elements; "
                 "every call runs in a forked child with its input region ending at a PROT_NONE guard page (ASan build with exact-size "
                 "heap blocks in the thorough tier) so that a read beyond the declared length is detected; distinct = distinct (length mod 8, <=4 pass-through, variant)")
-    res.assumptions = ["hand model Model/Sponge.lean tied to the code on the executed lengths only; the theorem covers all lengths",
+    res.assumptions = ["hand model Model/Sponge.lean tied to the code by execution on the listed lengths and by the bridge theorems below; the theorem covers all lengths",
                        "C07_generated_*: about Gen/LinearHashGen.lean (linear_hash_seq, linear_hash, linear_hash_avx512 translated from the "
                        "C++ on every run, fuel-bounded while loop): for every fuel > size they return the digest(s) of the hand model "
                        "instantiated with the translated permutation (locality of the three translated permutations is proved); "
